@@ -465,7 +465,7 @@ def long_names():
 
 class C17(KProp):
     id = "C17"
-    rule = ("cases: EXHAUSTIVE sequences of line tokens {[Key], Name x2, PublicKey x2 valid + 1 malformed, PrivateKey 1 valid "
+    rule = ("cases: EXHAUSTIVE sequences of line tokens {[Key], Name x2 (alice / Alice), PublicKey x2 valid + 1 malformed, PrivateKey 1 valid "
             "+ 1 malformed, comment, blank, junk} up to 5 lines (thorough 7), extended only below prefixes that have not "
             "already failed in the line loop (a failed prefix is kept once, plus a random sample of its extensions); random "
             "UTF-8 keyrings with exotic white space, line terminators, '=' placement, prefix look-alikes, names of 127/128/129 "
@@ -510,11 +510,12 @@ class C17(KProp):
     def token_cases(self, ctx, maxlen):
         rng = ctx.rng
         K = self.K
-        toks = [b"[Key]", b"Name = alice", b"Name = Bob B", b"PublicKey = " + K["P1"], b"PublicKey = " + K["P2"],
+        # the two names differ ONLY in the case of one letter: names are compared byte for byte
+        toks = [b"[Key]", b"Name = alice", b"Name = Alice", b"PublicKey = " + K["P1"], b"PublicKey = " + K["P2"],
                 b"PublicKey = " + K["PBAD"], b"PrivateKey = " + K["S1"], b"PrivateKey = " + K["SBAD"],
                 b"# comment", b"", b"junk"]
         self.toks = toks
-        field = {1: ("n", b"alice"), 2: ("n", b"Bob B"), 3: ("p", K["P1"]), 4: ("p", K["P2"]), 6: ("s", K["S1"])}
+        field = {1: ("n", b"alice"), 2: ("n", b"Alice"), 3: ("p", K["P1"]), 4: ("p", K["P2"]), 6: ("s", K["S1"])}
 
         def sections(seq):
             """what an ACCEPTED sequence must contain: None if it cannot be accepted under the property"""
@@ -587,7 +588,7 @@ class C17(KProp):
         self.count(ctx, "tokens:accepted", len(acc))
         look = []
         for c in rng.sample(acc, min(len(acc), 600 if ctx.thorough() else 120)):
-            look += self.lookup_cases(c.a["text"], c.result["entries"], [b"alice", b"Bob B", b"carol"], [K["P1"], K["P2"], K["P3"]])
+            look += self.lookup_cases(c.a["text"], c.result["entries"], [b"alice", b"Alice", b"ALICE", b"carol"], [K["P1"], K["P2"], K["P3"]])
         return cases, look
 
     def lookup_cases(self, text, entries, names, pubs):
@@ -690,13 +691,25 @@ class C17(KProp):
             cases.append(KCase("kr_parse", text=t, oracle=self.accepted_oracle(), tags=["edge-text"] + (["trivial"] if not t else [])))
         # duplicate names / public keys across two and three sections, every combination
         K = self.K
-        for a, b, c3 in itertools.product([b"alice", b"Bob B"], [b"alice", b"Bob B"], [None, b"alice", b"carol"]):
+        for a, b, c3 in itertools.product([b"alice", b"Alice", b"Bob B"], [b"alice", b"Alice", b"Bob B"], [None, b"alice", b"carol"]):
             for p, q, r3 in itertools.product([K["P1"], K["P2"]], [K["P1"], K["P2"]], [K["P1"], K["P3"]]):
                 secs = [(a, p, K["S1"]), (b, q, None)] + ([(c3, r3, None)] if c3 else [])
                 text = b"\n".join(key_block(*e) for e in secs)
                 distinct = len(set(e[0] for e in secs)) == len(secs) and len(set(e[1] for e in secs)) == len(secs)
                 cases.append(KCase("kr_parse", text=text, oracle=self.accepted_oracle(secs if distinct else None),
                                    tags=["dup-sections-" + ("distinct" if distinct else "duplicate")]))
+        # names that differ only in case (ASCII and non-ASCII) are DIFFERENT names: both entries are kept, a lookup returns the
+        # entry whose name matches exactly and nothing for a third spelling
+        for pair in ([b"alice", b"Alice"], [b"Alice", b"alice"], ["\u00e9".encode(), "\u00c9".encode()], [b"Bob B", b"bob b"],
+                     ["stra\u00dfe".encode(), "STRASSE".encode()], [b"alice", b"Alice", b"ALICE"], ["\u01c6".encode(), "\u01c5".encode(), "\u01c4".encode()]):
+            pubs = [K["P1"], K["P2"], K["P3"]][:len(pair)]
+            secs = [(n, p, K["S1"] if i == 0 else None) for i, (n, p) in enumerate(zip(pair, pubs))]
+            text = b"\n".join(key_block(*e) for e in secs)
+            cases.append(KCase("kr_parse", text=text, oracle=self.accepted_oracle(secs), tags=["case-pair"]))
+            third = pair[0].decode().swapcase().encode() if pair[0].decode().swapcase().encode() not in pair else pair[0] + b"x"
+            for c in self.lookup_cases(text, secs, list(pair) + [third, pair[0].decode().upper().encode()], pubs):
+                c.tags = ["case-pair-" + c.tags[0]]
+                cases.append(c)
         # names at the length bound, inside a keyring and through valid_key_name
         for nm in self.longs + ["", "a", "a\tb", "\t", " a ", "a\nb"]:
             b = nm.encode("utf-8")
@@ -1396,7 +1409,8 @@ GEN_NAMES = ["alice", "Bob B", "carol", "dave", "k\u00e9y \U0001F511", "x=y", "#
 
 class C14(ProcProp):
     id = "C14"
-    rule = ("cases: histories of 1..4 'key generate -o F' (distinct names incl. unicode/128-byte/look-alike names; passwords '', "
+    rule = ("cases: histories of 1..4 'key generate -o F' (distinct names incl. unicode/128-byte/look-alike names and names that differ "
+            "only in case, alice/Alice, e-acute/E-acute; passwords '', "
             "'a', unicode, 100-byte) over initial states of F {absent, empty, one key with / without trailing newline, CRLF "
             "line ends, with comments, two keys, blank lines only, a symbolic link (absolute / relative) to a keyring of one / two "
             "keys, a dangling symbolic link}; after every run: exit 0, previous bytes are a prefix, the "
@@ -1432,6 +1446,13 @@ class C14(ProcProp):
                     plans.append({"h": hid, "state": st, "names": names, "pws": [rng.choice(PROC_PASSWORDS) for _ in range(n)],
                                   "rt": ctx.thorough() or hid % 3 == 0, "pt": ctx.rbytes(rng.choice([1, 1000, 66000]))})
                     hid += 1
+        # names that differ only in case are distinct keys: both generations succeed, the file loads, each key is usable under
+        # its own name (the round trip below encrypts from the first to the LAST name)
+        for names in (["alice", "Alice"], ["Alice", "alice"], ["\u00e9", "\u00c9"], ["alice", "ALICE", "Alice"]):
+            for st in (states[0], states[2]):
+                plans.append({"h": hid, "state": st, "names": names, "pws": [("pw-%d" % i).encode() for i in range(len(names))],
+                              "rt": True, "pt": ctx.rbytes(100)})
+                hid += 1
         w = World()
         try:
             recs = self.pmap(lambda pl: self.one_history(w, pl), plans)
@@ -1630,6 +1651,9 @@ class FileWorld(World):
         self.write("kr_first", pubonly("alice") + b"\n" + B["bob"] + b"\n" + B["carol"])
         self.write("kr_last", B["carol"] + b"\n" + B["bob"] + b"\n# the sender comes last\n" + pubonly("alice"))
         self.write("kr_absent", B["bob"] + b"\n" + B["carol"])
+        # the same keys, but the sender's public key is filed under ANOTHER name: tells which keyring was consulted
+        self.write("kr_renamed", key_block(b"zed", self.pub["alice"]) + b"\n" + B["bob"] + b"\n" + B["carol"])
+        self.write("kr_junk", b"this is not a keyring\n")
         # a contact whose PublicKey is well-formed base64 of 36 bytes with a WRONG checksum (the parser accepts it; it is
         # neither sender nor recipient), listed before / after the sender
         raw = ctx.rbytes(32)
@@ -1654,6 +1678,101 @@ class FileWorld(World):
         self.write("pct_bad2", fl(pct, PHDR + rec + 16 + 10))
         self.write("ct_trunc2", ct[:HDR + rec + 16 + 100])
         self.write("pct_trunc2", pct[:PHDR + rec + 16 + 100])
+        # authentic files FOLLOWED by something: one byte / a copy of the file's own last record (one- and two-chunk files)
+        cs, ps = self.read("ct_small"), self.read("pct_small")
+        for name, data, hdr, last in (("ct_small", cs, HDR, cs[HDR:]), ("pct_small", ps, PHDR, ps[PHDR:]),
+                                      ("ct_big", ct, HDR, ct[HDR + rec:]), ("pct_big", pct, PHDR, pct[PHDR + rec:])):
+            self.write(name + "_x1", data + b"\x00")
+            self.write(name + "_xr", data + last)
+
+
+# =========================================================================== output that cannot be delivered
+def proc_judge(ctx, ok, scenario, commands, expected, observed):
+    ctx.oracle_checks += 1
+    if not ok:
+        ctx.violations.append({"input": {"kind": "proc", "scenario": scenario, "commands": commands},
+                               "expected": expected, "observed": observed, "finding_key": None})
+    return ok
+
+
+def run_with_stdout(w, argv, env, mode, stdin_file=None, timeout=180):
+    """mode 'closed': stdout is a pipe whose read end is closed before the program writes; 'drain': a reader takes everything"""
+    e = {"PATH": "/usr/bin:/bin", "HOME": w.dir, "LANG": "C.UTF-8"}
+    e.update(env)
+    fin = open(os.path.join(w.dir, stdin_file), "rb") if stdin_file else subprocess.DEVNULL
+    try:
+        if mode == "closed":
+            r, wr = os.pipe()
+            p = subprocess.Popen([w.bin] + argv, env=e, stdin=fin, stdout=wr, stderr=subprocess.PIPE, start_new_session=True, cwd=w.dir)
+            os.close(wr)
+            os.close(r)
+            try:
+                _, err = p.communicate(timeout=timeout)
+            except subprocess.TimeoutExpired:
+                p.kill()
+                _, err = p.communicate()
+                err += b"[timeout]"
+            out = b""
+        else:
+            pr = subprocess.run([w.bin] + argv, env=e, stdin=fin, stdout=subprocess.PIPE, stderr=subprocess.PIPE, start_new_session=True,
+                                cwd=w.dir, timeout=timeout)
+            p, out, err = pr, pr.stdout, pr.stderr
+    finally:
+        if stdin_file:
+            fin.close()
+    w.nruns += 1
+    return Run(argv, {k: v for k, v in env.items()}, ("<" + stdin_file) if stdin_file else None, p.returncode, out, err)
+
+
+def pipe_delivery_checks(ctx, w=None):
+    """C12 (truthful exit status) / C10 (write failures are reported): a >= 1 MiB result sent to stdout whose reader has gone
+    away, or to /dev/full with -o, is NOT delivered: exit 1 with an Error: line.  Control: a reader that drains everything gets
+    the exact bytes and exit 0.  Callable on its own (builds a FileWorld) or with the caller's."""
+    own = w is None
+    if own:
+        w = FileWorld()
+    try:
+        if own:
+            w.setup(ctx)
+        huge = ctx.rng.getrandbits(8 * ((1 << 20) + 321)).to_bytes((1 << 20) + 321, "big")
+        w.write("pt_huge", huge)
+        e = w.run(["encrypt", "pt_huge", "-t", "bob", "-f", "alice", "-o", "ct_huge", "-k", "kr_full", "--env-pass"], env=env_pw(w.pw["alice"]))
+        q = w.run(["password", "encrypt", "pt_huge", "-o", "pct_huge", "--env-pass"], env=env_pw(w.passpw))
+        if not proc_judge(ctx, e.rc == 0 and q.rc == 0, "C12 delivery: preparing 1 MiB files", [e.describe(), q.describe()], "encryption succeeds",
+                          "exit %d/%d" % (e.rc, q.rc)):
+            return
+        kr = {"KESTREL_KEYRING": "kr_full"}
+        cmds = [("decrypt", ["decrypt", "ct_huge", "-t", "bob", "--env-pass"], dict(env_pw(w.pw["bob"]), **kr), huge, "ct_huge"),
+                ("password decrypt", ["pass", "dec", "pct_huge", "--env-pass"], env_pw(w.passpw), huge, "pct_huge"),
+                ("encrypt", ["enc", "pt_huge", "-t", "bob", "-f", "alice", "--env-pass"], dict(env_pw(w.pw["alice"]), **kr), None, "pt_huge"),
+                ("password encrypt", ["password", "encrypt", "pt_huge", "--env-pass"], env_pw(w.passpw), None, "pt_huge")]
+        jobs = []
+        for (name, argv, env, want, infile) in cmds:
+            jobs.append((name, "stdout reader gone", argv, env, "closed", None, want))
+            jobs.append((name, "stdin -> stdout, reader gone", [a for a in argv if a != infile], env, "closed", infile, want))
+            jobs.append((name, "stdout drained", argv, env, "drain", None, want))
+            jobs.append((name, "-o /dev/full", argv + ["-o", "/dev/full"], env, "drain", None, want))
+
+        def one(j):
+            name, how, argv, env, mode, sin, want = j
+            return run_with_stdout(w, argv, env, mode, stdin_file=sin)
+        with ThreadPoolExecutor(max_workers=NPROC) as ex:
+            runs = list(ex.map(one, jobs))
+        for (name, how, argv, env, mode, sin, want), r in zip(jobs, runs):
+            sc = "C12 delivery: %s of 1 MiB, %s" % (name, how)
+            ctx.distribution["delivery:" + how] = ctx.distribution.get("delivery:" + how, 0) + 1
+            if how == "stdout drained":
+                good = r.rc == 0 and (r.out == want if want is not None else len(r.out) > len(huge))
+                proc_judge(ctx, good, sc, [r.describe()], "exit 0 and the complete output on stdout", "exit %d, %d bytes on stdout, stderr %r"
+                           % (r.rc, len(r.out), r.errtext()[-160:]))
+            else:
+                proc_judge(ctx, r.rc == 1 and "Error: " in r.errtext(), sc, [r.describe()],
+                           "the output could not be delivered: exit 1 with an Error: line (never exit 0, never a crash)",
+                           "exit %d, stderr %r" % (r.rc, r.errtext()[-200:]))
+        ctx.evaluations += len(jobs)
+    finally:
+        if own:
+            w.close()
 
 
 # =========================================================================== C12
@@ -1663,7 +1782,10 @@ class C12(ProcProp):
             "decrypt over the wirings {file argument | stdin} x {-o | stdout} x {-k | KESTREL_KEYRING} x {--long v | -s v | "
             "--long=v | -long v} x {command | alias} (argument before/after the options) for inputs {valid 1000 B, valid 2 chunks, "
             "empty plaintext, damaged first chunk, damaged second chunk, wrong recipient key, wrong password, file of the other "
-            "mode} and keyrings {sender first, last, absent, a bad-checksum contact before / after the sender}; successful runs with "
+            "mode, authentic file + 1 byte / + a copy of its last record (one and two chunks)} and keyrings {sender first, last, absent, a "
+            "bad-checksum contact before / after the sender}; -k together with a KESTREL_KEYRING naming a different / missing / malformed "
+            "keyring (the option wins); >= 1 MiB outputs to a pipe whose reader has gone away and to /dev/full (exit 1), with a draining "
+            "reader as control; successful runs with "
             "-o onto an absent path and onto an existing file (file bytes must equal the output, also for the empty plaintext); encrypt / password encrypt over the same wirings with an injected "
             "random stream (byte-identical output) and with real randomness, each decrypted; quick = base wiring + 20 random "
             "wirings per (input, keyring) group, thorough = all 64; non-trivial = every run")
@@ -1691,7 +1813,10 @@ class C12(ProcProp):
             inputs = [("valid-small", "ct_small", "bob", P["small"], True), ("valid-big", "ct_big", "bob", P["big"], True),
                       ("valid-empty", "ct_empty", "bob", b"", True),
                       ("bad-chunk1", "ct_bad1", "bob", b"", False), ("bad-chunk2", "ct_bad2", "bob", P["big"][:CHUNK], False),
-                      ("wrong-recipient", "ct_small", "carol", b"", False), ("password-file", "pct_small", "bob", b"", False)]
+                      ("wrong-recipient", "ct_small", "carol", b"", False), ("password-file", "pct_small", "bob", b"", False),
+                      # an authentic file followed by one byte / by a copy of its last record: NOT a complete delivery
+                      ("trailing-byte-small", "ct_small_x1", "bob", b"", False), ("trailing-record-small", "ct_small_xr", "bob", b"", False),
+                      ("trailing-byte-big", "ct_big_x1", "bob", P["big"][:CHUNK], False), ("trailing-record-big", "ct_big_xr", "bob", P["big"][:CHUNK], False)]
             gid = 0
             def pres(iname, c):
                 """state of the -o path before the run: successful runs also write onto an existing file (it must be replaced
@@ -1702,7 +1827,8 @@ class C12(ProcProp):
                     return ["absent", "sentinel"]
                 return [rng.choice(["absent", "sentinel"])]
             for (iname, f, to, deliver, ok) in inputs:
-                for kr in ("kr_first", "kr_last", "kr_absent") + (("kr_badck_before", "kr_badck_after") if ok else ()):
+                for kr in (("kr_first",) if iname.startswith("trailing") else
+                           ("kr_first", "kr_last", "kr_absent") + (("kr_badck_before", "kr_badck_after") if ok else ())):
                     gid += 1
                     for c in pickw(wir):
                         for pre in pres(iname, c):
@@ -1713,7 +1839,29 @@ class C12(ProcProp):
             pin = [("valid-small", "pct_small", w.passpw, P["small"], True), ("valid-big", "pct_big", w.passpw, P["big"], True),
                    ("valid-empty", "pct_empty", w.passpw, b"", True),
                    ("bad-chunk1", "pct_bad1", w.passpw, b"", False), ("bad-chunk2", "pct_bad2", w.passpw, P["big"][:CHUNK], False),
-                   ("wrong-password", "pct_small", b"other", b"", False), ("key-file", "ct_small", w.passpw, b"", False)]
+                   ("wrong-password", "pct_small", b"other", b"", False), ("key-file", "ct_small", w.passpw, b"", False),
+                   ("trailing-byte-small", "pct_small_x1", w.passpw, b"", False), ("trailing-record-small", "pct_small_xr", w.passpw, b"", False),
+                   ("trailing-byte-big", "pct_big_x1", w.passpw, P["big"][:CHUNK], False),
+                   ("trailing-record-big", "pct_big_xr", w.passpw, P["big"][:CHUNK], False)]
+            # ---- -k AND KESTREL_KEYRING both given, naming different keyrings: the option wins
+            both = [("-k kr_first, KESTREL_KEYRING=kr_renamed", "kr_first", "kr_renamed", True, "alice"),
+                    ("-k kr_renamed, KESTREL_KEYRING=kr_first", "kr_renamed", "kr_first", True, "zed"),
+                    ("-k kr_first, KESTREL_KEYRING=missing file", "kr_first", "no_such_keyring", True, "alice"),
+                    ("-k kr_last, KESTREL_KEYRING=malformed file", "kr_last", "kr_junk", True, "alice"),
+                    ("-k missing file, KESTREL_KEYRING=kr_first", "no_such_keyring", "kr_first", False, None),
+                    ("-k malformed file, KESTREL_KEYRING=kr_first", "kr_junk", "kr_first", False, None)]
+            kw = [c for c in wir if c["kr"] == "k"]
+            for (lbl, kopt, kenv, ok, sname) in both:
+                gid += 1
+                for c in [BASE_WIRING] + rng.sample(kw, len(kw) if ctx.thorough() else 5):
+                    jobs.append({"g": gid, "group": "decrypt valid-small " + lbl, "cmd": "decrypt", "cfg": c, "in": "ct_small", "to": "bob",
+                                 "pre": "absent", "kr": kopt, "env_kr": kenv, "pw": w.pw["bob"], "deliver": P["small"] if ok else b"", "ok": ok,
+                                 "plain": P["small"] if ok else None, "sender": "name" if ok else None, "sender_name": sname})
+            gid += 1
+            for c in [BASE_WIRING] + rng.sample(kw, len(kw) if ctx.thorough() else 5):
+                jobs.append({"g": gid, "group": "encrypt small -k kr_full, KESTREL_KEYRING=kr_absent (no sender key there)", "cmd": "encrypt", "cfg": c,
+                             "in": "pt_small", "to": "bob", "from": "alice", "kr": "kr_full", "env_kr": "kr_absent", "pw": w.pw["alice"], "ok": True,
+                             "rand": None, "plain": P["small"], "injected": False})
             for (iname, f, pw, deliver, ok) in pin:
                 gid += 1
                 for c in pickw(wirp):
@@ -1745,6 +1893,7 @@ class C12(ProcProp):
                 j["i"] = i
             res = self.pmap(lambda j: self.one(w, j), jobs)
             self.judge_all(ctx, w, jobs, res)
+            pipe_delivery_checks(ctx, w)
             ctx.evaluations += w.nruns
             self.count(ctx, "proc:runs", w.nruns)
         finally:
@@ -1762,6 +1911,8 @@ class C12(ProcProp):
             w.write(out, SENTINEL)
         env0 = {"KESTREL_VERIF_RANDOM": j["rand"].hex()} if j.get("rand") else None
         argv, env, stdin = wire(j["cmd"], j["cfg"], j["in"], out, to=j.get("to"), frm=j.get("from"), keyring=j.get("kr"), pw=j["pw"], extra_env=env0)
+        if j.get("env_kr"):
+            env["KESTREL_KEYRING"] = j["env_kr"]
         r = w.run(argv, env=env, stdin=stdin)
         filed = w.read(out)
         delivered = (filed if filed is not None else b"") if j["cfg"]["out"] == "o" else r.out
@@ -1831,7 +1982,7 @@ class C12(ProcProp):
                                "absent" if got is None else "%d bytes: %r..." % (len(got), got[:50]))
                 if dec and j.get("sender") and run.rc == 0:
                     if j["sender"] == "name":
-                        want = "Success. File from: alice"
+                        want = "Success. File from: " + j.get("sender_name", "alice")
                     else:
                         want = "Unknown key: " + w.pub["alice"].decode()
                     self.judge(ctx, want in run.errtext().splitlines(), sc, [run], "stderr reports the sender: %r" % want, "stderr %r" % run.errtext()[-200:])
@@ -1868,7 +2019,7 @@ class C13(ProcProp):
             "failure cause of the property that applies (bad arguments, same input and output, missing input, no / missing / "
             "malformed / non-UTF-8 keyring, unknown key name, missing private key, bad public-key checksum, wrong password, unset "
             "password variable, no terminal for the prompt, wrong / damaged / truncated header, damaged or truncated first chunk, "
-            "refused key exchange with a low-order public key on either side, invalid key name) x output path {absent, present "
+            "data after the last chunk, input paths without a final component, refused key exchange with a low-order public key on either side, invalid key name) x output path {absent, present "
             "with sentinel content}; quick: base wiring + 1 random wiring, thorough: + 6 random wirings (stdin input, aliases, "
             "option spellings, keyring by environment); later-chunk failures (damaged / truncated second chunk): the path holds "
             "exactly the first 65536 plaintext bytes; non-trivial = every run")
@@ -1945,6 +2096,11 @@ class C13(ProcProp):
         enc("bad-arguments:two input files", mod=add("pt_big"), wired=False)
         enc("bad-arguments:input = output", mod=inout_same, wired=False)
         enc("missing-input", infile="no_such_file", wired=False)
+        # a missing input whose path has no final component (Path::file_name() is None): still an error value
+        enc("missing-input:empty path", infile="", wired=False)
+        enc("missing-input:path ending in ..", infile="nodir/..", wired=False)
+        enc("missing-input:absolute path ending in ..", infile="/nodir_kv/sub/..", wired=False)
+        enc("missing-input:root of nothing", infile="nodir/.", wired=False)
         enc("keyring:not given", mod=nokr)
         enc("keyring:missing file", kr="no_such_keyring")
         enc("keyring:malformed", kr="kr_junk")
@@ -1966,6 +2122,11 @@ class C13(ProcProp):
         dec("bad-arguments:two input files", mod=add("ct_big"), wired=False)
         dec("bad-arguments:input = output", mod=inout_same, wired=False)
         dec("missing-input", infile="no_such_file", wired=False)
+        # a missing input whose path has no final component (Path::file_name() is None): still an error value
+        dec("missing-input:empty path", infile="", wired=False)
+        dec("missing-input:path ending in ..", infile="nodir/..", wired=False)
+        dec("missing-input:absolute path ending in ..", infile="/nodir_kv/sub/..", wired=False)
+        dec("missing-input:root of nothing", infile="nodir/.", wired=False)
         dec("keyring:not given", mod=nokr)
         dec("keyring:missing file", kr="no_such_keyring")
         dec("keyring:malformed", kr="kr_junk")
@@ -1992,12 +2153,20 @@ class C13(ProcProp):
         dec("truncated-first-chunk:header only", infile="ct_t1h")
         dec("wrong-recipient", to="carol", pw=w.pw["carol"])
         dec("refused-key-exchange:low-order ephemeral key", infile="ct_eph0")
+        # an authentic one-chunk file followed by extra data: the last chunk is not released, the command fails
+        dec("trailing-data:one byte", infile="ct_small_x1")
+        dec("trailing-data:copy of the last record", infile="ct_small_xr")
         # ---------------- password encrypt
         penc("bad-arguments:unknown option", mod=add("--bogus"))
         penc("bad-arguments:two input files", mod=add("pt_big"), wired=False)
         penc("bad-arguments:input = output", mod=inout_same, wired=False)
         penc("bad-arguments:--to given", mod=add("-t", "bob"))
         penc("missing-input", infile="no_such_file", wired=False)
+        # a missing input whose path has no final component (Path::file_name() is None): still an error value
+        penc("missing-input:empty path", infile="", wired=False)
+        penc("missing-input:path ending in ..", infile="nodir/..", wired=False)
+        penc("missing-input:absolute path ending in ..", infile="/nodir_kv/sub/..", wired=False)
+        penc("missing-input:root of nothing", infile="nodir/.", wired=False)
         penc("unset-password-variable", nopw=True)
         penc("no-terminal-for-prompt", nopw=True, noenvpass=True)
         # ---------------- password decrypt
@@ -2005,6 +2174,11 @@ class C13(ProcProp):
         pdec("bad-arguments:two input files", mod=add("pct_big"), wired=False)
         pdec("bad-arguments:input = output", mod=inout_same, wired=False)
         pdec("missing-input", infile="no_such_file", wired=False)
+        # a missing input whose path has no final component (Path::file_name() is None): still an error value
+        pdec("missing-input:empty path", infile="", wired=False)
+        pdec("missing-input:path ending in ..", infile="nodir/..", wired=False)
+        pdec("missing-input:absolute path ending in ..", infile="/nodir_kv/sub/..", wired=False)
+        pdec("missing-input:root of nothing", infile="nodir/.", wired=False)
         pdec("unset-password-variable", nopw=True)
         pdec("no-terminal-for-prompt", nopw=True, noenvpass=True)
         pdec("wrong-password", pw=b"not the password")
@@ -2018,6 +2192,8 @@ class C13(ProcProp):
         pdec("corrupted-first-chunk:ciphertext", infile="pct_bad1")
         pdec("corrupted-first-chunk:tag", infile="pct_c1tag")
         pdec("truncated-first-chunk", infile="pct_t1")
+        pdec("trailing-data:one byte", infile="pct_small_x1")
+        pdec("trailing-data:copy of the last record", infile="pct_small_xr")
         # ---------------- key generate
         gen("bad-arguments:unknown option", mod=add("--bogus"))
         gen("bad-arguments:unknown subcommand", mod=lambda argv, env, stdin, o: (["key", "make"] + argv[2:], env, stdin))
@@ -2083,7 +2259,10 @@ class C13(ProcProp):
                         jobs.append({"cmd": cmd, "cause": cause, "build": build, "cfg": cfg, "pre": pre, "later": None})
             # later-chunk failures: the authenticated prefix stays
             for cmd, f, pw, to in (("decrypt", "ct_bad2", w.pw["bob"], "bob"), ("decrypt", "ct_trunc2", w.pw["bob"], "bob"),
-                                   ("pass-decrypt", "pct_bad2", w.passpw, None), ("pass-decrypt", "pct_trunc2", w.passpw, None)):
+                                   ("pass-decrypt", "pct_bad2", w.passpw, None), ("pass-decrypt", "pct_trunc2", w.passpw, None),
+                                   # a two-chunk file followed by extra data: the first chunk was released, the last one is not
+                                   ("decrypt", "ct_big_x1", w.pw["bob"], "bob"), ("decrypt", "ct_big_xr", w.pw["bob"], "bob"),
+                                   ("pass-decrypt", "pct_big_x1", w.passpw, None), ("pass-decrypt", "pct_big_xr", w.passpw, None)):
                 for cfg in [BASE_WIRING] + rng.sample(wir, 6 if ctx.thorough() else 2):
                     cfg = dict(cfg, out="o")
                     for pre in ("absent", "sentinel", "long-sentinel"):
@@ -2212,16 +2391,30 @@ def near_miss_argvs():
 def dispatch_cases(ctx):
     """the SAME near-miss vectors through the real process: clidrv's `parse` op carries its own copy of try_main's dispatch
     (harness/clidrv/src/driver.rs), so only a process run exercises main.rs::try_main's `match args[1]` itself"""
+    direct = []
     cases = [CliCase("dispatch " + " ".join(a[1:]), a[1:], {}, pw=b"pw", stdin=b"name\n", rnd=bytes(64), tags=["dispatch-process"], oracle=no_stray)
              for a in near_miss_argvs()]
     cases += [CliCase("dispatch " + " ".join(a), a, {}, tags=["dispatch-process"]) for a in
               ([], ["-h"], ["--help"], ["-v"], ["--version"], ["x", "--help"], ["enc", "-h"], ["-v", "x"], ["--version", "--help"], ["-V"], ["help"])]
+    def exit01(r):
+        if r["consumed"] not in (0, 1):
+            return ("the process ends with status 0 or 1 (an error value), never a panic (101) or a signal", r["raw"][:300])
+        if r["consumed"] == 1 and "Error: " not in r["raw"]:
+            return ("a failing run prints an Error: line", r["raw"][:300])
+        return no_stray(r)
+    for path in ("", "nodir/..", "/nodir_kv/sub/..", "..", "/", ".", "nodir/", "a/../..", "x\u00e9/.."):
+        for argv in (["encrypt", path, "-t", "a", "-f", "b", "-k", "nokr", "--env-pass"], ["dec", path, "-t", "a", "--env-pass"],
+                     ["password", "encrypt", path, "--env-pass"], ["pass", "decrypt", "--env-pass", path, "-o", "out"]):
+            c = CliCase("input path %r: %s" % (path, " ".join(argv[:2])), argv, {}, pw=b"pw", rnd=bytes(64), watch=["out"],
+                        tags=["odd-input-path"], oracle=exit01)
+            # "..", "/", "." EXIST (directories): outside the model's world of plain files -> direct oracle only
+            (direct if path in ("..", "/", ".") else cases).append(c)
     root = tempfile.mkdtemp(prefix="kv_dispatch_", dir="/tmp")
     try:
-        exec_cli_cases(cases, root)
+        exec_cli_cases(cases + direct, root)
     finally:
         shutil.rmtree(root, ignore_errors=True)
-    return cases
+    return cases, direct
 
 
 def parse_cases(ctx):
@@ -2334,9 +2527,10 @@ def parse_correspondence(ctx):
     """entry point for C09 (props.py) and C12"""
     cases, nonutf = parse_cases(ctx)
     cases += spelling_cases(ctx)
-    cases += dispatch_cases(ctx)
+    dc, direct = dispatch_cases(ctx)
+    cases += dc
     k_run_cases(ctx, cases, model=True, prelude=parse_prelude() + cli_prelude(), tag=ctx.pid + "p")
-    k_run_cases(ctx, nonutf, model=False)
+    k_run_cases(ctx, nonutf + direct, model=False)
     ctx.distribution["parse:model-compared"] = ctx.distribution.get("parse:model-compared", 0) + len(cases)
 
 
@@ -2520,6 +2714,8 @@ def exec_cli_cases(cases, root):
                     after[nm] = f.read()
         code, text = classify_run(c.a["argv"], rc, out, err, help_txt, ver_txt)
         stray = sorted(set(after) - set(c.a["watch"]))
+        if rc < 0:
+            rc = 1000 - rc          # killed by signal -rc
         c.result = {"id": None, "code": code, "outcome": "exit%d:class%d" % (rc, code), "out": out, "consumed": rc, "trace": [],
                     "extra": render_paths(after, c.a["watch"]) + text, "entries": None, "msg": "", "after": after, "stray": stray,
                     "raw": "exit=%d class=%d stdout=%s stderr=%r files=%s" % (rc, code, out[:80].hex(), err.decode("utf-8", "replace")[-200:],
@@ -2622,6 +2818,27 @@ def c12_model_cases(ctx, mw):
                                         ("bad-chunk1", mw.pct_bad1, mw.passpw), ("key-file", mw.ct, mw.passpw)]):
         cases.append(wired_case("password decrypt %s" % nm, "pass-decrypt", pcfg[j % 4], "in.ct", data, {"in.ct": data}, pw=pw,
                                 tags=["model:pass-decrypt-" + nm]))
+    # an authentic file followed by one byte / by a copy of its only record, both modes
+    for nm, data, cmd, to, pw in (("valid + 1 byte", mw.ct + b"\x00", "decrypt", "bob", mw.pw["bob"]),
+                                  ("valid + copy of the last record", mw.ct + mw.ct[HDR:], "decrypt", "bob", mw.pw["bob"]),
+                                  ("valid + 1 byte", mw.pct + b"\x00", "pass-decrypt", None, mw.passpw),
+                                  ("valid + copy of the last record", mw.pct + mw.pct[PHDR:], "pass-decrypt", None, mw.passpw)):
+        for cfg in (MW4[0], MW4[1]):
+            cfg = cfg if to else dict(cfg, kr="k")
+            cases.append(wired_case("%s %s" % (cmd, nm), cmd, cfg, "in.ct", data, dict({"in.ct": data}, **({"kr": mw.kr["first"]} if to else {})),
+                                    to=to, keyring="kr" if to else None, pw=pw, tags=["model:trailing-data"]))
+    # -k and KESTREL_KEYRING together: the option names the keyring (Cli.v::keyring_path)
+    renamed = key_block(b"zed", mw.pub["alice"]) + b"\n" + mw.block["bob"] + b"\n" + mw.block["carol"]
+    D = ["decrypt", "in.ct", "-t", "bob", "-o", "out", "--env-pass"]
+    for lbl, kfile, envkr, fs in (("-k first, variable renamed", "kr1", "kr2", {"kr1": mw.kr["first"], "kr2": renamed}),
+                                  ("-k renamed, variable first", "kr2", "kr1", {"kr1": mw.kr["first"], "kr2": renamed}),
+                                  ("-k first, variable missing file", "kr1", "nokr", {"kr1": mw.kr["first"]}),
+                                  ("-k first, variable malformed", "kr1", "junk", {"kr1": mw.kr["first"], "junk": b"not a keyring\n"}),
+                                  ("-k missing file, variable first", "nokr", "kr1", {"kr1": mw.kr["first"]}),
+                                  ("-k malformed, variable first", "junk", "kr1", {"kr1": mw.kr["first"], "junk": b"not a keyring\n"})):
+        for opt_ in (["-k", kfile], ["--keyring=" + kfile]):
+            cases.append(CliCase("decrypt valid, " + lbl, D + opt_, dict({"in.ct": mw.ct}, **fs), pw=mw.pw["bob"], keyring_env=envkr, watch=["out"],
+                                 tags=["model:keyring-option-and-variable"], oracle=no_stray))
     cases.append(CliCase("help", ["--help"], {}, tags=["model:help"]))
     cases.append(CliCase("version", ["-v"], {}, tags=["model:version"]))
     return cases
@@ -2673,6 +2890,11 @@ def c13_model_cases(ctx, mw):
         ("pass-decrypt:wrong-password", ["pass", "dec", "pct", "-o", "out", "--env-pass"], {}, b"nope", b"", b""),
         ("pass-decrypt:key-file", ["pass", "dec", "ct", "-o", "out", "--env-pass"], {}, mw.passpw, b"", b""),
         ("pass-decrypt:truncated", ["pass", "dec", "pct", "-o", "out", "--env-pass"], {"pct": pct[:PHDR + 20]}, mw.passpw, b"", b""),
+        ("pass-decrypt:appended-data", ["pass", "dec", "pct", "-o", "out", "--env-pass"], {"pct": pct + b"x"}, mw.passpw, b"", b""),
+        ("pass-decrypt:appended-record", ["pass", "dec", "pct", "-o", "out", "--env-pass"], {"pct": pct + pct[PHDR:]}, mw.passpw, b"", b""),
+        ("appended-record", D, {"ct": ct + ct[HDR:]}, Bp, b"", b""),
+        ("missing-input:empty path", sub(D, "ct", ""), {}, Bp, b"", b""),
+        ("missing-input:path ending in ..", sub(D, "ct", "nodir/.."), {}, Bp, b"", b""),
         ("generate:invalid-name", ["key", "generate", "-o", "out", "--env-pass"], {}, b"pw", b"  \t \n", mw.rnd),
         ("generate:name-129-bytes", ["key", "gen", "-o", "out", "--env-pass"], {}, b"pw", "\u00e9".encode("utf-8") * 64 + b"a\n", mw.rnd),
         ("generate:name-with-tab", ["key", "gen", "-o", "out", "--env-pass"], {}, b"pw", b"a\tb\n", mw.rnd),
